@@ -277,7 +277,7 @@ pub fn property() -> Property {
                 name: "programs",
                 plan: |t| match t {
                     Tier::Quick => Plan::Random { cases: 300_000, max_len: 700 },
-                    Tier::Thorough => Plan::Random { cases: 1_500_000, max_len: 900 },
+                    Tier::Thorough => Plan::Random { cases: 3_000_000, max_len: 900 },
                 },
                 case: case_q,
                 min_classes: &[("several-errors-in-sequence", 3000), ("exit_on_error-fatal", 1000), ("file-mode", 2000), ("error-with-function-calls-around", 3000)],
@@ -286,7 +286,7 @@ pub fn property() -> Property {
                 name: "included",
                 plan: |t| match t {
                     Tier::Quick => Plan::Random { cases: 40_000, max_len: 700 },
-                    Tier::Thorough => Plan::Random { cases: 400_000, max_len: 900 },
+                    Tier::Thorough => Plan::Random { cases: 800_000, max_len: 900 },
                 },
                 case: case_included,
                 min_classes: &[("error-inside-included-file", 1000), ("error-in-including-file-after-directive", 1000)],
@@ -295,7 +295,7 @@ pub fn property() -> Property {
                 name: "large-programs",
                 plan: |t| match t {
                     Tier::Quick => Plan::Skip,
-                    Tier::Thorough => Plan::Random { cases: 200_000, max_len: 2500 },
+                    Tier::Thorough => Plan::Random { cases: 400_000, max_len: 2500 },
                 },
                 case: case_t,
                 min_classes: &[],
